@@ -625,13 +625,14 @@ fn parse_aml_type_struct(
     require_token_type(tok_iter, &TokenType::OpenCurlyBracket)?; // guaranteed to succeed
     let mut structdata = Vec::new();
 
+    // the member list is optional: "struct { }" is a valid (empty) struct
     loop {
-        structdata.push(parse_aml_member(tok_iter, types)?);
-        require_token_type(tok_iter, &TokenType::Semicolon)?;
-
         if let Some(TokenType::ClosedCurlyBracket) = tok_iter.peek() {
             break;
         }
+
+        structdata.push(parse_aml_member(tok_iter, types)?);
+        require_token_type(tok_iter, &TokenType::Semicolon)?;
     }
     require_token_type(tok_iter, &TokenType::ClosedCurlyBracket)?;
 
@@ -672,14 +673,15 @@ fn parse_aml_type_taggedstruct(
     // parse the taggedstruct elements
     require_token_type(tok_iter, &TokenType::OpenCurlyBracket)?; // guaranteed to succeed
     let mut taggedstructdata = HashMap::new();
+    // the member list is optional: "taggedstruct { }" is valid
     loop {
-        let (itemname, itemdef) = parse_aml_taggedmember(tok_iter, types, true)?;
-        taggedstructdata.insert(itemname, itemdef);
-        require_token_type(tok_iter, &TokenType::Semicolon)?;
-
         if let Some(TokenType::ClosedCurlyBracket) = tok_iter.peek() {
             break;
         }
+
+        let (itemname, itemdef) = parse_aml_taggedmember(tok_iter, types, true)?;
+        taggedstructdata.insert(itemname, itemdef);
+        require_token_type(tok_iter, &TokenType::Semicolon)?;
     }
     require_token_type(tok_iter, &TokenType::ClosedCurlyBracket)?;
 
@@ -717,14 +719,15 @@ fn parse_aml_type_taggedunion(
     /* parse the taggedunion elements */
     require_token_type(tok_iter, &TokenType::OpenCurlyBracket)?; // guaranteed to succeed
     let mut taggeduniondata = HashMap::new();
+    // the member list is optional: "taggedunion { }" is valid
     loop {
-        let (itemname, itemdef) = parse_aml_taggedmember(tok_iter, types, false)?;
-        taggeduniondata.insert(itemname, itemdef);
-        require_token_type(tok_iter, &TokenType::Semicolon)?;
-
         if let Some(TokenType::ClosedCurlyBracket) = tok_iter.peek() {
             break;
         }
+
+        let (itemname, itemdef) = parse_aml_taggedmember(tok_iter, types, false)?;
+        taggeduniondata.insert(itemname, itemdef);
+        require_token_type(tok_iter, &TokenType::Semicolon)?;
     }
     require_token_type(tok_iter, &TokenType::ClosedCurlyBracket)?;
 
